@@ -93,6 +93,13 @@ def make_sim(c, delays, sims, c_caps=16, strip=False, reuse=False, cuda=False, a
         if getattr(ws, 'abuf', None) is not None:
             try: ws.abuf[...] = 0
             except Exception: pass
+    if warm == 'auto' and (seed % 7 == 3 or (cuda and seed % 3 == 1)):
+        # the object has been through a pickle round trip (as when simulators are shipped to worker processes): it must
+        # behave like the original (WaveSimCuda has its own __getstate__/__setstate__)
+        import pickle
+        STATS['pickled'] = STATS.get('pickled', 0) + 1
+        with common.quiet():
+            ws = pickle.loads(pickle.dumps(ws))
     return ws
 
 
